@@ -27,7 +27,7 @@ ASSUMPTIONS = [
     "injected garbage is of the promptly-rejectable kind (>= one header long, wrong prefix); input that makes the client wait for a declared length is C06/C17's subject",
     "'holds an open connection' = the simulated socket was accepted and the client has not yet called close()/abort() on it nor lost it",
 ]
-PROBES = ["c07.double_reset_same_instant", "c07.fault_during_reconnect", "c07.fault_at_retry_timer", "c07.unencodable_while_down",
+PROBES = ["c07.frame_then_fin", "c07.fin_at_accept", "c07.double_reset_same_instant", "c07.fault_during_reconnect", "c07.fault_at_retry_timer", "c07.unencodable_while_down",
           "c07.raising_subscriber", "c07.api_class", "c07.probe_delivered"]
 
 
@@ -35,7 +35,8 @@ def budget(tier: str) -> int:
     return 12000 if tier == "quick" else 1_000_000
 
 
-FAULTS = ["refuse", "slow_accept", "fin", "rst", "garbage", "bad_crc", "undecodable", "truncated", "write_error", "unencodable", "send"]
+FAULTS = ["refuse", "slow_accept", "fin", "rst", "garbage", "bad_crc", "undecodable", "truncated", "write_error", "unencodable", "send",
+          "frame_then_fin", "fin_at_accept"]
 
 
 def _probe_status(gen: int, marker: int) -> bytes:
@@ -139,6 +140,17 @@ def generate(rng, index: int, tier: str) -> dict:
             tl.append({"at": t, "op": "net.fates", "fates": recon})
             tl.append({"at": t, "op": "console.raw", "hex": fr[:cut].hex()})
             tl.append({"at": t + rng.choice([0.0, lat, 0.125]), "op": "net.fin"})
+        elif kind == "frame_then_fin":
+            # a valid frame with the peer's FIN right behind it: the EOF is fed while the client is still
+            # delivering the frame to its subscribers
+            tl.append({"at": t, "op": "net.fates", "fates": recon})
+            tl.append({"at": t, "op": "console.raw", "hex": _probe_status(gen, rng.randint(0, 7)).hex()})
+            tl.append({"at": t + rng.choice([0.0, 0.0, G.EPS]), "op": "net.fin"})
+        elif kind == "fin_at_accept":
+            # the console accepts and closes at once: EOF arrives during the connected notification fan-out
+            tl.append({"at": t, "op": "net.fates", "fates": recon})
+            tl.append({"at": t, "op": "net.fin_next_accept", "delay": rng.choice([0.0, 0.0, G.EPS, lat])})
+            tl.append({"at": t, "op": rng.choice(["net.fin", "net.rst"])})
         elif kind == "write_error":
             tl.append({"at": t, "op": "net.fates", "fates": recon})
             tl.append({"at": t, "op": "net.fail_write", "nth": rng.choice([1, 2, 3]), "err": rng.choice(["EPIPE", "ECONNRESET", "ETIMEDOUT"])})
@@ -249,6 +261,11 @@ def execute(sc: dict) -> dict:
             probes["c07.fault_during_reconnect"] = 1
         if any(ft == a for ft in ftimes) and a > 0:
             probes["c07.fault_at_retry_timer"] = 1
+    if any(st["op"] == "net.fin_next_accept" for st in sc["timeline"]):
+        probes["c07.fin_at_accept"] = 1
+    tl_ops = [(st["at"], st["op"]) for st in sc["timeline"]]
+    if any(op == "console.raw" and (at, "net.fin") in tl_ops for (at, op) in tl_ops):
+        probes["c07.frame_then_fin"] = 1
     if "bad" in w.subs and any(e[2] == "sub.call" and e[3].get("k") == "bad" for e in trace.events):
         probes["c07.raising_subscriber"] = 1
     if any(st.get("unencodable") or st["op"] == "user.send_raw_object" for st in sc["timeline"]):
